@@ -306,14 +306,19 @@ def run(prog, rep):
     for name in ("from_string", "from_file"):
         f = prog.func("tools.xmlparser.XMLReader." + name)
         rep.saw_function(f)
-        effs = effect_calls(prog, f, lambda c: isinstance(c.func, ast.Attribute) and c.func.attr in ("_handle_version", "parse_element"))
-        calls = ["self." + e.call.func.attr for e in effs]
-        hv0 = [e for e in effs if e.call.func.attr == "_handle_version"]
-        pe0 = [e for e in effs if e.call.func.attr == "parse_element"]
-        fg = build_cfg(f)
-        ordered = bool(hv0) and bool(pe0) and all(fg.dominates(hv0[0].node, e.node) for e in pe0) and \
-            (hv0[0].node.id != pe0[0].node.id or hv0[0].func is not f)
-        rep.check("self._handle_version" in calls and "self.parse_element" in calls and ordered, "VER-1",
+        tail = lambda c: call_name(c).split(".")[-1]        # method, static method or module function
+        effs = effect_calls(prog, f, lambda c: tail(c) in ("_handle_version", "parse_element"))
+        hv0 = [e for e in effs if tail(e.raw) == "_handle_version"]
+        pe0 = [e for e in effs if tail(e.raw) == "parse_element"]
+        fg = effs[0].x.g if effs and effs[0].func is f else build_cfg(f)
+
+        def before(a0, b0):
+            """a0 completes before b0 starts: in the caller, or - both inside one inlined helper - in that helper"""
+            if a0.node.id != b0.node.id:
+                return fg.dominates(a0.node, b0.node)
+            return a0.func is b0.func and a0.func is not f and a0.x.g.dominates(a0.inner, b0.inner) and a0.inner.id != b0.inner.id
+        ordered = bool(hv0) and bool(pe0) and all(before(hv0[0], e) for e in pe0)
+        rep.check(ordered, "VER-1",
                   "XMLReader.%s checks the version before parsing" % name, "ok",
                   "%s does not call _handle_version and parse_element" % name, f.where)
     rep.assume("lxml's builder E(tag, text) escapes XML metacharacters and ET.tounicode serialises faithfully")
